@@ -54,6 +54,10 @@ func faultSweep() []*Spec {
 		for _, fac := range []bool{false, true} {
 			out = append(out, &Spec{ID: fmt.Sprintf("fault%d-%v", k, fac), FaultK: k, FailAfterClose: fac, CloseAtEnd: true, ConnParams: k%2 == 0, Actions: base})
 		}
+		if k > 3 {
+			// the connection dies at its k-th operation
+			out = append(out, &Spec{ID: fmt.Sprintf("dead-from-%d", k), FaultK: k, FailFrom: true, CloseAtEnd: true, Actions: base})
+		}
 	}
 	return out
 }
@@ -62,7 +66,7 @@ func faultSweep() []*Spec {
 func RunFor(prop string) func(tier string, seed int64, outDir string, replay string) (*core.Result, error) {
 	return func(tier string, seed int64, outDir string, replay string) (*core.Result, error) {
 		res := core.NewResult(prop, tier, seed)
-		res.Rule = "schedules of the real WebSocket client under a deterministic controller (yield hooks + scripted connection + paused forwarder): fixed corpus of known-bad interleavings, an every-k connection-fault sweep (with and without writes failing after the close frame), and random schedules (<=3 subscriptions, <=8 server frames incl. next/complete/error/malformed/unknown id, one Unsubscribe per id, one Close, connection loss, receives, thread steps at lock/lookup/send granularity) followed by a drain (all writes complete; helpful application); non-trivial = Start was attempted; distinct by action list + fault plan"
+		res.Rule = "schedules of the real WebSocket client under a deterministic controller (yield hooks + scripted connection + paused forwarder): fixed corpus of known-bad interleavings, an every-k connection-fault sweep (with and without writes failing after the close frame, and with a connection that is dead from its k-th operation on), and random schedules (<=3 subscriptions, <=8 server frames incl. next/complete/error/malformed/unknown id, one Unsubscribe per id, one Close, connection loss, receives, thread steps at lock/lookup/send granularity) followed by a drain (all writes complete; helpful application); non-trivial = Start was attempted; distinct by action list + fault plan"
 		if replay != "" {
 			data, err := os.ReadFile(replay)
 			if err != nil {
@@ -187,8 +191,37 @@ func wsCaseTerm(idx int, tr *Trace) string {
 	for _, b := range tr.APIOK {
 		oks = append(oks, fmt.Sprint(b))
 	}
-	return fmt.Sprintf("{| w_id := %d; w_acts := [%s]; w_delivered := [%s]; w_api_ok := [%s] |}",
-		idx, strings.Join(acts, ";\n  "), strings.Join(del, "; "), strings.Join(oks, "; "))
+	// the frames written after the handshake, as the model's wframe terms
+	frames := "Some ["
+	for i, f := range tr.Frames {
+		if f.Type == "connection_init" && i == 0 {
+			continue
+		}
+		t := ""
+		switch {
+		case f.MsgType == 8:
+			t = "WClose"
+		case f.Type == "subscribe" && f.Sub >= 0:
+			t = fmt.Sprintf("WSubscribe %d", f.Sub)
+		case f.Type == "complete" && f.Sub >= 0:
+			t = fmt.Sprintf("WComplete %d", f.Sub)
+		}
+		if t == "" {
+			frames = ""
+			break
+		}
+		if !strings.HasSuffix(frames, "[") {
+			frames += "; "
+		}
+		frames += t
+	}
+	if frames == "" {
+		frames = "None"
+	} else {
+		frames += "]"
+	}
+	return fmt.Sprintf("{| w_id := %d; w_acts := [%s]; w_delivered := [%s]; w_api_ok := [%s]; w_frames := %s |}",
+		idx, strings.Join(acts, ";\n  "), strings.Join(del, "; "), strings.Join(oks, "; "), frames)
 }
 
 func startCaseTerm(idx int, tr *Trace) string {
